@@ -10,7 +10,7 @@ __all__ = ['Spectrum', 'Blackbody', 'Material', 'path_emission', 'path_transmiss
 
 # Constants
 H = 6.62606957e-34  # Planck constant, J/s (kg m^2/s^2)
-C = 299792456      # Speed of light, m/s
+C = 299792458      # Speed of light, m/s (exact)
 K = 1.3806488e-23  # Boltzmann constant, J/K (kg m^2/K)
 
 
